@@ -101,6 +101,34 @@ theorem reassemble_ok_iff (l : List ChunkV) (p : PwbPacket) (hv : ∀ c ∈ l, c
     have hvs : ∀ c ∈ sortById l, c.Valid := fun c hc => hv c ((sortById_perm l).mem_iff.1 hc)
     exact reassemble_complete l p hne hv hdev hchip g (bound_of_valid _ hvs g) hd
 
+/-- C04 (transport): chunks `cs` cut from a message in id order (one board, one chip, `SortedGood`)
+and delivered in *any* order `l` reassemble to exactly the packet that the concatenation of their
+payloads decodes to. -/
+theorem reassemble_of_sorted_perm (cs l : List ChunkV) (p : PwbPacket) (hp : cs.Perm l)
+    (hs : cs.Pairwise (fun a b => a.chunkId ≤ b.chunkId)) (hv : ∀ c ∈ cs, c.Valid) (d k : Nat)
+    (hdev : ∀ c ∈ cs, c.deviceId = d) (hchip : ∀ c ∈ cs, c.chip = k) (g : SortedGood cs)
+    (hd : decodePwb (cs.flatMap (·.payload)) = .ok p) : reassemble l = .ok p := by
+  have hvl : ∀ c ∈ l, c.Valid := fun c hc => hv c (hp.mem_iff.2 hc)
+  have hne : l ≠ [] := by
+    intro e; subst e
+    have := hp.length_eq; have := g.ne; simp_all
+  have hd0 : dev0 l = d := by
+    cases l with
+    | nil => exact absurd rfl hne
+    | cons a t => exact hdev a (hp.mem_iff.2 (by simp))
+  have hc0 : chip0 l = k := by
+    cases l with
+    | nil => exact absurd rfl hne
+    | cons a t => exact hchip a (hp.mem_iff.2 (by simp))
+  have hg : reassembleSorted (sortById l) = .ok p := by
+    rw [reassembleSorted_sort_irrelevant _ cs ((sortById_perm l).trans hp.symm)
+      (sortById_sorted l) hs]
+    exact reassembleSorted_complete cs p g (bound_of_valid cs hv g) hd
+  obtain ⟨g', hd'⟩ := reassembleSorted_ok hg
+  exact (reassemble_ok_iff l p hvl).2 ⟨hne,
+    fun c hc => by rw [hd0]; exact hdev c (hp.mem_iff.2 hc),
+    fun c hc => by rw [hc0]; exact hchip c (hp.mem_iff.2 hc), g', hd'⟩
+
 /-- Non-vacuity: the right-hand side of `reassemble_ok_iff` holds for the 3-chunk example message
 in a shuffled arrival order. -/
 example : [c2, c0, c1] ≠ [] ∧ (∀ c ∈ [c2, c0, c1], c.deviceId = dev0 [c2, c0, c1])
